@@ -14,7 +14,7 @@ ID = 'C01'
 LEVEL = 'exploration'
 DECIDING = 'membership_tests'
 CHUNK = {'quick': 1, 'thorough': 2}
-TIMEOUT = 1500
+TIMEOUT = {'quick': 600, 'thorough': 1500}
 FAMILIES = ['funnel', 'ring', 'mixture', 'plateau', 'periodic', 'gauss', 'islands', 'staircase', 'corr', 'funnel',
             'periodic', 'mixture']
 RULE = ('case = one seeded Sampler (family in ' + ', '.join(sorted(set(FAMILIES))) + '; n_live, n_batch incl. 1 and '
